@@ -345,6 +345,8 @@ type runner struct {
 
 const watchdog = 4 * time.Second
 
+var stuckCases int32 // cases in which a wait ran into the watchdog
+
 func sendErrText(id xid.ID, t cc.MesosCommandTarget) string {
 	return "verif-send-fail " + id.String() + " " + t.TaskId.Value
 }
@@ -388,16 +390,28 @@ func (r *runner) nDone() int {
 
 // waitFor polls a monotone condition.
 func (r *runner) waitFor(what string, cond func() bool) bool {
-	if r.stuck != "" {
-		return false
+	// after a first wait has run into the watchdog the script is still played to its end (so
+	// that the observation shows what the code did with the remaining actions), with short waits
+	wd := watchdog
+	if atomic.LoadInt32(&stuckCases) >= 8 {
+		wd = 300 * time.Millisecond // the code evidently does not follow the scripts any more
 	}
-	deadline := time.Now().Add(watchdog)
+	if r.stuck != "" {
+		wd = 50 * time.Millisecond
+	}
+	if wd < 2*r.T+20*time.Millisecond { // never shorter than the response timeout being awaited
+		wd = 2*r.T + 20*time.Millisecond
+	}
+	deadline := time.Now().Add(wd)
 	for i := 0; ; i++ {
 		if cond() {
 			return true
 		}
 		if time.Now().After(deadline) {
-			r.stuck = what
+			if r.stuck == "" {
+				r.stuck = what
+				atomic.AddInt32(&stuckCases, 1)
+			}
 			return false
 		}
 		if i < 50 {
@@ -481,7 +495,7 @@ func classifyEntry(resp cc.MesosCommandResponse, id xid.ID, t cc.MesosCommandTar
 		return entryObs{Kind: "other"}
 	}
 	if tr, ok := resp.(*tagResp); ok && tr != nil {
-		if (tr.Err() != nil) != (tr.Tag%2 == 1) || tr.GetCommandId() != id {
+		if (tr.Err() != nil) != (tr.Tag%2 == 1) {
 			return entryObs{Kind: "other"}
 		}
 		return entryObs{Kind: "reply", P: tr.Tag}
@@ -565,9 +579,6 @@ func runScript(steps []step, T time.Duration) (observation, bool) {
 
 	for i := range steps {
 		s := &steps[i]
-		if r.stuck != "" {
-			break
-		}
 		switch s.Op {
 		case "enq":
 			var tl []cc.MesosCommandTarget
@@ -640,6 +651,9 @@ func runScript(steps []step, T time.Duration) (observation, bool) {
 	// leaked responders: whoever is still blocked in call.Done<- is released (and counted)
 	leaks := 0
 	deadline := time.Now().Add(watchdog)
+	if r.stuck != "" {
+		deadline = time.Now().Add(300 * time.Millisecond)
+	}
 	for int(atomic.LoadInt32(&r.returned)) < r.spawned {
 		r.mu.Lock()
 		for _, iv := range r.invs {
